@@ -105,8 +105,18 @@ void primesieve_skipto(primesieve_iterator* it,
   it->stop_hint = stop_hint;
   it->primes = nullptr;
 
-  if (!it->memory)
-    it->memory = new IteratorData(it->start);
+  try
+  {
+    if (!it->memory)
+      it->memory = new IteratorData(it->start);
+  }
+  catch (const std::exception& e)
+  {
+    // No C++ exception must cross the C API boundary
+    std::cerr << "primesieve_iterator: " << e.what() << std::endl;
+    setErrorState(it, 0);
+    return;
+  }
 
   auto& iterData = getIterData(it);
   iterData.stop = start;
